@@ -238,7 +238,9 @@ func (t *TinyLfu[K, V]) UpdateCost(entry *Entry[K, V], weightChange int64) {
 		}
 	}
 
-	if t.weightedSize > t.capacity {
+	// cost changes of the same entry may arrive reordered and make the sum
+	// negative temporarily, compare as signed so it is not treated as overflow
+	if int64(t.weightedSize) > int64(t.capacity) {
 		t.EvictEntries()
 	}
 }
@@ -287,7 +289,7 @@ func (t *TinyLfu[K, V]) evictFromMain(candidate *Entry[K, V]) {
 	candidateQueue := LIST_PROBATION
 	victim := t.slru.probation.Back()
 
-	for t.weightedSize > t.capacity {
+	for int64(t.weightedSize) > int64(t.capacity) {
 		if candidate == nil && candidateQueue == LIST_PROBATION {
 			candidate = t.window.Back()
 			candidateQueue = LIST_WINDOW
